@@ -115,6 +115,10 @@ def classify(case, ctx=None, n1=4000):
                 out.add((min(a, b), max(a, b)))
         return out
 
+    # a position whose value is the same under all 4 keys does not draw from the key's stream at all
+    same = [j for j in range(len(names)) if all(v.shape == vals[0].shape and v[j] == vals[0][j] for v in vals[1:]) and vals[0][j] != 0.0]
+    if same:
+        fails.append((f"draw_independent_of_key{K}", f"position {names[same[0]]} returns {vals[0][same[0]]} under each of 4 different keys"))
     common = set.intersection(*[dup_pairs(v) for v in vals]) if len(names) > 1 else set()
     if common:
         a, b = sorted(common)[0]
